@@ -327,7 +327,7 @@ class PeriodicTable(object):
         # lookup will fail later.
         parts = input.split('-')
         if len(parts) == 1:
-            isotope = 0
+            isotope = None
             symbol = parts[0]
         elif len(parts) == 2:
             try:
@@ -346,14 +346,14 @@ class PeriodicTable(object):
             attr = getattr(self, symbol)
             if isinstance(attr, Element):
                 # If no isotope, return the element
-                if isotope == 0:
+                if isotope is None:
                     return attr
                 # If isotope, check that it is valid
                 if isotope in attr.isotopes:
                     return attr[isotope]
             elif isinstance(attr, Isotope):
                 # D, T must not have an associated isotope; 4-D is meaningless.
-                if isotope == 0:
+                if isotope is None:
                     return attr
 
         # If we can't parse the string as an element or isotope, raise an error
